@@ -199,10 +199,44 @@ def oracle(ctx, k=1):
     oracle_iqr(ctx, ctx.n(150, 1500) * k)
 
 
+_JIT_ORACLE = r'''
+import sys, json
+sys.path.insert(0, %(tools)r)
+from vlib.main import Ctx
+from props import _approx as A, c19
+ctx = Ctx("C19", "quick", %(seed)d)
+A.regen(None)
+c19.oracle(ctx, 3)
+json.dump({"fails": [[s, d, A.jsonable(r)] for s, d, r in ctx.oracle_fails[:20]], "cases": ctx.evaluations}, sys.stdout)
+'''
+
+
+def jit_oracle(ctx):
+    """the same oracle on the numba-COMPILED helpers (separate process, JIT on)"""
+    import json
+    import os
+    import subprocess
+    import sys
+    env = dict(os.environ)
+    env.pop("NUMBA_DISABLE_JIT", None)
+    tools = os.path.abspath(os.path.join(os.path.dirname(__file__), ".."))
+    p = subprocess.run([sys.executable, "-c", _JIT_ORACLE % {"tools": tools, "seed": ctx.seed}],
+                       capture_output=True, text=True, env=env, timeout=2400)
+    if p.returncode != 0:
+        ctx.tie_fail("harness", "jit-oracle-subprocess", p.stderr[-1500:])
+        return
+    res = json.loads(p.stdout[p.stdout.index("{"):])
+    ctx.notes["jit_oracle_cases"] = res["cases"]
+    for s, d, r in res["fails"]:
+        ctx.oracle_fail(s + "[numba-compiled]", d, r)
+
+
 def run(ctx, model_ok=True):
     if model_ok:
         A.correspondence(ctx, group(), ctx.n(80, 500))
     oracle(ctx)
+    if ctx.tier == "thorough":
+        jit_oracle(ctx)
 
 
 def search(ctx):
